@@ -525,7 +525,64 @@ def noloop(k1: int, k2: int, k3: int, n: int) -> None:
 noloop.ranges = lambda consts: dict(k1=(0, 2), k2=(0, 2), k3=(0, 2))
 
 
-def rxprog(n: int, c1: int, c2: int, c3: int) -> None:
+def ctxasync(kind: int, inside: bool, route: int) -> None:
+    """`with p.param.update(x=<coroutine function | async generator function>)`: leaving the block restores the previous plain
+    value, which cancels the reference for good - also when the awaitable is still pending at that moment."""
+    kind = pick(kind, 0, 1)
+    inside = pickbool(inside)
+    route = pick(route, 0, 1)
+    state = {}
+
+    async def main():
+        loop = asyncio.get_running_loop()
+        gates = []
+
+        async def coro():
+            f = loop.create_future()
+            gates.append(f)
+            await f
+            return 'late'
+
+        async def gen():
+            f = loop.create_future()
+            gates.append(f)
+            await f
+            yield 'late0'
+            yield 'late1'
+        with untraced():
+            p = P()
+        p.x = 'base'
+        ref = coro if kind == 0 else gen
+        ctx = p.param.update(x=ref) if route == 0 else p.param.update({'x': ref})
+        with ctx:
+            for _ in range(5):
+                await asyncio.sleep(0)
+            if inside:
+                for g in gates:
+                    if not g.done():
+                        g.set_result(None)
+                for _ in range(8):
+                    await asyncio.sleep(0)
+            state['inside'] = p.x
+        state['after_exit'] = p.x
+        for g in gates:
+            if not g.done():
+                g.set_result(None)
+        for _ in range(8):
+            await asyncio.sleep(0)
+        state['final'] = p.x
+        state['refs'] = len(p._param__private.refs)
+    loop = asyncio.new_event_loop()
+    try:
+        loop.run_until_complete(main())
+    finally:
+        loop.close()
+    info = {'update_context_with_async_reference': True, 'kind': kind, 'completed_inside': inside, 'route': route}
+    check('C10.plain_cancels', state['after_exit'] == 'base' and state['final'] == 'base' and state['refs'] == 0,
+          dict(info, after_exit=repr(state['after_exit']), final=repr(state['final']), refs=state['refs']))
+
+
+def rxprog(n: int, c1: int, c2: int, c3: int, b1: bool = False, b2: bool = False, b3: bool = False) -> None:
     """src = rx(1); out = src.rx.pipe(slow); n-1 further root updates; completions in a solver-chosen order."""
     state = {}
 
@@ -548,18 +605,24 @@ def rxprog(n: int, c1: int, c2: int, c3: int) -> None:
             src.rx.value = j
             for _ in range(5):
                 await asyncio.sleep(0)
-        for c in (c1, c2, c3):
+        for c, bad in zip((c1, c2, c3), (b1, b2, b3)):
             pend = [g for g in gates if not g[1].done()]
             if not pend:
                 break
             assume(0 <= c < len(pend))
             c = pick(c, 0, len(pend) - 1)
             v, f = pend[c]
-            f.set_result('result%d' % v)
+            if v != n and pickbool(bad):
+                f.set_exception(ValueError('superseded evaluation fails'))     # only evaluations for older inputs may fail
+            else:
+                f.set_result('result%d' % v)
             for _ in range(8):
                 await asyncio.sleep(0)
         assume(all(f.done() for _, f in gates))
-        state['final'] = out.rx.value
+        try:
+            state['final'] = out.rx.value
+        except Exception as e:      # noqa
+            state['final'] = 'raised %s' % type(e).__name__
         state['published'] = [x for x in published if isinstance(x, str)]
         state['ngates'] = len(gates)
     loop = asyncio.new_event_loop()
@@ -601,6 +664,7 @@ def shards(tier):
         out.append(dict(name='rx2_%d' % watch, module='harness.c10', fn='rx2', consts=dict(watch=watch, n=3), budget_s=60 if q else 300))
     for n in (2, 3):
         out.append(dict(name='rxmap_n%d' % n, module='harness.c10', fn='rxmap', consts=dict(n=n), budget_s=60 if q else 300))
+    out.append(dict(name='ctxasync', module='harness.c10', fn='ctxasync', consts={}, budget_s=60 if q else 300))
     out.append(dict(name='noloop', module='harness.c10', fn='noloop', consts=dict(n=3), budget_s=60 if q else 300))
     out.append(dict(name='rxgen', module='harness.c10', fn='rxgen', consts={}, budget_s=60 if q else 300))
     for n in (2, 3):
